@@ -313,10 +313,16 @@ func MergeV(c *Term, a, b Value) Value {
 				// a nil slice adapts to the other designator
 				if la.St == StDyn && la.ID == RefNil() && lb.St != StLocal {
 					la.St, la.Key, la.Root, la.Path = lb.St, lb.Key, lb.Root, lb.Path
+					if la.shape() != lb.shape() {
+						panic(shapeMismatch{sa, sb})
+					}
 					return MergeV(c, la, lb)
 				}
 				if lb.St == StDyn && lb.ID == RefNil() && la.St != StLocal {
 					lb.St, lb.Key, lb.Root, lb.Path = la.St, la.Key, la.Root, la.Path
+					if la.shape() != lb.shape() {
+						panic(shapeMismatch{sa, sb})
+					}
 					return MergeV(c, la, lb)
 				}
 			}
